@@ -192,6 +192,22 @@ Proof.
     apply N.eqb_eq in E. subst i. apply negb_true_iff. exact Hn.
 Qed.
 
+(* whatever a StreamingPull client sends as its limits, the limits in force are >= 1, and a
+   limit the client did set is the one in force *)
+Theorem effective_fc_ok m b : limits_ok (effective_fc m b).
+Proof.
+  unfold limits_ok, effective_fc. cbn [fm fb].
+  destruct (m <=? 0) eqn:Em; destruct (b <=? 0) eqn:Eb;
+    try apply Z.leb_gt in Em; try apply Z.leb_gt in Eb; lia.
+Qed.
+Theorem effective_fc_keeps m b :
+  (0 < m -> fm (effective_fc m b) = m) /\ (0 < b -> fb (effective_fc m b) = b).
+Proof.
+  unfold effective_fc. cbn [fm fb]. split; intros H.
+  - assert (E : (m <=? 0) = false) by (apply Z.leb_gt; exact H). rewrite E. reflexivity.
+  - assert (E : (b <=? 0) = false) by (apply Z.leb_gt; exact H). rewrite E. reflexivity.
+Qed.
+
 Theorem bound_init f : limits_ok f -> Bound (init f).
 Proof.
   intros [Hm Hb]. unfold Bound, init. cbn. repeat split; try constructor; try tauto; try lia.
